@@ -83,6 +83,37 @@ class Chooser:
 # }}}
 
 
+class EnumChooser(Chooser):
+    """Systematic exploration: follows *prefix* (a list of option indices for
+    the branching picks), then always takes option 0, and records for every
+    branching pick how many options there were -- the driver backtracks over
+    that record (depth-first enumeration of all schedules)."""
+
+    def __init__(self, prefix):
+        super().__init__(random.Random(0))
+        self.prefix = list(prefix)
+        self.choices: list = []          # [index taken, number of options]
+
+    def pick(self, kind, labels, weights=None):
+        n = len(labels)
+        if n == 1:
+            return 0
+        k = len(self.choices)
+        i = self.prefix[k] if k < len(self.prefix) else 0
+        if i >= n:
+            i = n - 1
+        self.choices.append([i, n])
+        self.trace.append([kind, labels[i], i])
+        return i
+
+    def flag(self, kind, prob):
+        if prob <= 0.0:
+            return False
+        if prob >= 1.0:
+            return True
+        return bool(self.pick(kind, [0, 1]))
+
+
 # {{{ facade objects (what pytato sees)
 
 class Request:
@@ -217,6 +248,7 @@ def install_fake_mpi4py():
 # {{{ configuration
 
 POLICIES = ("random", "pct", "starve", "late", "early", "lifo", "stall")
+# ("enum" is not drawn at random: systematic exploration, see EnumChooser)
 
 
 def draw_config(rng: random.Random, n: int) -> dict:
@@ -451,6 +483,26 @@ class Sim:
                    lambda: any(r.complete for r in active))
         done = [i for i, r in enumerate(requests) if r.complete and not r.consumed]
         assert done
+        if self.cfg.get("ws_enum") and not only_one and len(done) > 1:
+            # systematic mode: every non-empty subset (reported ascending)
+            subsets = []
+            for mask in range(1, 2 ** len(done)):
+                subsets.append([done[j] for j in range(len(done))
+                                if mask >> j & 1])
+            chosen = subsets[self.ch.pick("ws-subset",
+                                          [str(x) for x in subsets])]
+            if len(chosen) < len(done):
+                self.stats["waitsome_strict_subset"] += 1
+            if len(chosen) > 1:
+                self.stats["waitsome_multi"] += 1
+            for i in chosen:
+                requests[i].consumed = True
+                if requests[i].kind == "recv":
+                    self.recv_done_order.setdefault(rank, []).append(
+                        requests[i].id)
+            self._ev("waitsome-ret", rank,
+                     tuple(requests[i].id for i in chosen))
+            return chosen
         if only_one or len(done) == 1:
             k = 1
         elif self.ch.flag("ws-all", self.cfg["waitsome_all_prob"]):
@@ -649,6 +701,18 @@ class Sim:
         labels = [list(e) for e in events]
         if len(events) == 1:
             return 0
+        if pol == "enum":
+            # partial-order reduction by hand: a rank step that is not a wake-up
+            # from Wait/Waitsome (start, post-isend, post-irecv, return from a
+            # collective) only adds posted operations; what the code under test
+            # can observe is the set of completed requests at its next
+            # Wait/Waitsome, which is decided by the branching below.  Such
+            # steps are taken at once, lowest rank first, without branching.
+            for i, e in enumerate(events):
+                if e[0] == "step" and self.desc[e[1]][0] not in ("waitsome",
+                                                                 "wait"):
+                    return i
+            return self.ch.pick("ev", labels)
         steps = [i for i, e in enumerate(events) if e[0] == "step"]
         nets = [i for i, e in enumerate(events) if e[0] != "step"]
         cand = None
